@@ -5,6 +5,7 @@
 package main
 
 import (
+	"encoding/hex"
 	"encoding/json"
 	"flag"
 	"fmt"
@@ -34,6 +35,8 @@ func mk(class string, kvs ...string) rec {
 		f[k] = v
 		if bare {
 			parts = append(parts, k+"="+v)
+		} else if (k == "name" || k == "srcname" || k == "target") && strings.ContainsAny(v, " \t\"") {
+			parts = append(parts, k+"="+strings.ToUpper(hex.EncodeToString([]byte(v)))) // the kernel's spelling of an untrusted string
 		} else {
 			parts = append(parts, k+`="`+v+`"`)
 		}
@@ -221,6 +224,11 @@ func main() {
 		mk("rlimit", "apparmor", "DENIED", "operation", "setrlimit", "class", "rlimits", "profile", "prog", "comm", "prog", "rlimit", "nofile", "=value", "1024"),
 		mk("change_onexec", "apparmor", "DENIED", "operation", "change_onexec", "class", "file", "info", "label not found", "=error", "-2", "profile", "prog", "name", "other", "comm", "prog", "target", "other"),
 	}
+	others = append(others,
+		mk("mount", "apparmor", "DENIED", "operation", "mount", "class", "mount", "profile", "prog", "name", "/media/USB DISK/", "comm", "prog", "fstype", "vfat", "srcname", "/dev/sdb1", "flags", "rw, nosuid"),
+		mk("umount", "apparmor", "DENIED", "operation", "umount", "class", "mount", "profile", "prog", "name", "/media/USB DISK/", "comm", "prog"),
+		mk("pivotroot", "apparmor", "DENIED", "operation", "pivotroot", "class", "mount", "profile", "prog", "name", "/srv/new root/", "comm", "prog", "srcname", "/srv/new root/old/"),
+	)
 	for i, r := range others {
 		w.Encode(process(fmt.Sprintf("%s-%d", r.Class, i), r))
 	}
